@@ -387,7 +387,8 @@ fn main() {
         "C11" => drive(&props::captured::Captured(props::captured::Which::C11), &a),
         "C07" => drive(&props::deadline::C07, &a),
         "C08" => drive(&props::hookproto::C08, &a),
-        "C10" => drive(&props::adapters::C10, &a),
+        "C10" => drive(&props::adapters::C10(false), &a),
+        "C09b" => drive(&props::adapters::C10(true), &a),
         "C04" => drive(&props::text::Text(props::text::Which::C04), &a),
         "C05" => drive(&props::udiff::C05, &a),
         "C13" => drive(&props::text::Text(props::text::Which::C13), &a),
